@@ -36,7 +36,7 @@ CP_POOL = [({"A": 1, "B": 2}, {"C": 1}), ({"C": 1}, {"A": 1}), ({"A": 1}, {"A": 
 META = dict(
     bounds=dict(
         quick="histories of <= 3 operations (ids family) / <= 2 (index family) / <= 3 (copy family; thorough 4: 4 stoichiometries, "
-              "copy, edit-a-copy, remove species/reaction) over 3 species, 2 rules, explicit ids "
+              "copy, edit-a-copy, remove species/reaction) / a chain of 8..11 reactions merged under its own ids followed by <= 2 (3) operations over 3 species, 2 rules, explicit ids "
               "{r_1,r_2,q_1,x} or generated, 9 stoichiometries incl. catalyst, source, sink, trivial, coefficient 2",
         thorough="histories of <= 4 operations in both families",
     ),
@@ -140,7 +140,20 @@ def h_history(E, depth, family):
     ref = Ref()
     copies = []  # (copy object, snapshot at copy time)
     succeeded = 0
-    if family == "ids":
+    if family == "many":
+        # prelude: a chain of k reactions r_1..r_k arrives from another network under its own ids
+        k = int(E.int("chain", 8, 11))
+        other = CRNHyperGraph()
+        for j in range(1, k + 1):
+            other.add_rxn({"A": j}, {"B": 1}, rule="r")
+        h.merge(other, prefix_edges=False)
+        for j in range(1, k + 1):
+            ref.edges["r_%d" % j] = ("r", {"A": j}, {"B": 1})
+        bad = invariant(h, ref)
+        if bad:
+            E.check(True, bad[0], dict(step="prelude", info=bad[1]))
+            return
+    if family in ("ids", "many"):
         ops = ["add", "rm", "merge", "copy"]
     elif family == "cp":
         ops = ["add", "rm", "rmsp", "copy", "cpedit"]
@@ -153,11 +166,11 @@ def h_history(E, depth, family):
         raised = None
         if op == "add":
             rule = E.choice("rule%d" % i, RULES)
-            eid = E.choice("id%d" % i, IDS if family == "ids" else ["<gen>", "x"])
-            if family == "ids":
+            eid = E.choice("id%d" % i, IDS if family in ("ids", "many") else ["<gen>", "x"])
+            if family in ("ids", "many"):
                 # each reaction of a history gets its own stoichiometry (coefficient i+1) so "own stoichiometry"
                 # is checkable
-                r, p = {"A": 1}, {"B": i + 1}
+                r, p = {"A": 1}, {"B": i + 20 if family == "many" else i + 1}
             elif family == "cp":
                 k = E.int("st%d" % i, 0, 3)
                 r, p = CP_POOL[int(k)]
@@ -183,7 +196,7 @@ def h_history(E, depth, family):
                     return
                 ref.edges[new_id] = (rule_s, dict(r), dict(p))
         elif op == "rm":
-            eid = str(E.choice("id%d" % i, IDS[1:] if family == "ids" else ["r_1", "q_1", "x"]))
+            eid = str(E.choice("id%d" % i, IDS[1:] if family in ("ids", "many") else ["r_1", "q_1", "x"]))
             try:
                 h.remove_rxn(eid)
             except KeyError as ex:
@@ -219,6 +232,9 @@ def h_history(E, depth, family):
                     ref.kept.discard(s)
                 else:
                     ref.kept.add(s)
+                    if s not in h.species:
+                        E.check(True, "species-the-caller-chose-to-keep-was-dropped", dict(step=i, species=s))
+                        return
         elif op == "mol":
             s = str(E.choice("sp%d" % i, SPECIES))
             try:
@@ -327,4 +343,5 @@ def shards(tier, seed):
         dict(h="history", params=dict(depth=d, family="ids")),
         dict(h="history", params=dict(depth=di, family="idx")),
         dict(h="history", params=dict(depth=d, family="cp")),
+        dict(h="history", params=dict(depth=2 if tier == "quick" else 3, family="many")),
     ]
